@@ -702,6 +702,19 @@ impl<'tcx> Cx<'tcx> {
         let mut o = vec![("id", s(path(tcx, did)))];
         let kind = tcx.def_kind(did);
         o.push(("defkind", s(format!("{:?}", kind))));
+        // names of the type / const generic parameters in substitution order (parents first, lifetimes
+        // skipped - the same convention as `args`): lets the analyses instantiate a generic helper at a call
+        {
+            let g = tcx.generics_of(did);
+            let mut names = vec![];
+            for i in 0..g.count() {
+                let p = g.param_at(i, tcx);
+                if !matches!(p.kind, ty::GenericParamDefKind::Lifetime) {
+                    names.push(s(p.name.to_string()));
+                }
+            }
+            o.push(("generics", J::A(names)));
+        }
         if let Some(ck) = tcx.coroutine_kind(did) {
             o.push(("coroutine_kind", s(format!("{:?}", ck))));
         }
